@@ -11,6 +11,112 @@ import PybtexModel.Lemmas.Engine
 namespace Pybtex.Props
 open Pybtex Pybtex.Interp Pybtex.Engine
 
+/-! ### examples used by the non-vacuity theorems -/
+namespace C06Ex
+/-- string literal as model string -/
+def s (x : String) : Str := x.toList
+
+/-- unsorted, reversed and sorting tiny styles: one line per entry, the key -/
+def bst : Str := s "ENTRY {title}{}{} FUNCTION {f} {cite$ write$ newline$} READ ITERATE {f}"
+def bstRev : Str := s "ENTRY {title}{}{} FUNCTION {f} {cite$ write$ newline$} READ REVERSE {f}"
+def bstSorted : Str :=
+  s "ENTRY {title}{}{} FUNCTION {k} {title 'sort.key$ :=} FUNCTION {f} {cite$ write$ newline$} READ ITERATE {k} SORT ITERATE {f}"
+/-- two entries; the same two in the other order after an uncited one -/
+def bib : Str := s "@misc{a, title = {Z}}\n@misc{b, title = {Y}}\n"
+def bib2 : Str := s "@misc{noise, title = {N}}\n@misc{b, title = {Y}}\n@misc{a, title = {Z}}\n"
+
+def files : Files :=
+  { aux := fun p =>
+      if p = s "/D/doc.aux" then some [s "\\citation{a,b}", s "\\bibstyle{/D/s}", s "\\bibdata{/D/refs}"] else none,
+    text := fun p =>
+      if p = s "/D/s.bst" then some bst
+      else if p = s "/D/r.bst" then some bstRev
+      else if p = s "/D/t.bst" then some bstSorted
+      else if p = s "/D/refs.bib" then some bib
+      else if p = s "/D/refs2.bib" then some bib2
+      else none }
+
+/-- what a YAML reader would deliver for `bib` -/
+def altDb : List (Str × Bib.Entry) × List Str :=
+  ([(s "a", { key := s "a", type := s "misc", origType := s "misc", fields := [(s "title", s "Z")], persons := [] }),
+    (s "b", { key := s "b", type := s "misc", origType := s "misc", fields := [(s "title", s "Y")], persons := [] })], [])
+
+/-- the `.bbl` text, `none` on error -/
+def bbl {α : Type} (r : Except Err α) (f : α → Result) : Option Str :=
+  match r with
+  | .ok x => some (f x).bbl
+  | .error _ => none
+
+def auxFatal {α : Type} (r : Except Err α) : Option Aux.Fatal :=
+  match r with
+  | .error (.aux a) => some a.fatal
+  | _ => none
+
+def cannotOpen {α : Type} (r : Except Err α) : Option Str :=
+  match r with
+  | .error (.cannotOpen p) => some p
+  | _ => none
+
+def auxView (r : Except Aux.Abort Aux.St) : Option (Option Str × Option (List Str) × List Str) :=
+  match r with
+  | .ok st => some (st.style, st.data, st.citations)
+  | .error _ => none
+
+/-- `FUNCTION {f} {cite$ write$ newline$}` -/
+def fEx : VarObj := .func [.name (s "cite$"), .name (s "write$"), .name (s "newline$")]
+/-- the three built-ins are what they are and the output buffer is empty between items -/
+def InvEx (st : St) : Prop :=
+  st.vars.getItem (s "cite$") = some (.builtin .cite) ∧ st.vars.getItem (s "write$") = some (.builtin .write) ∧
+  st.vars.getItem (s "newline$") = some (.builtin .newline) ∧ st.buffer = []
+/-- one line: the key -/
+def itemEx (k : Str) : List Str := [Wrap.wrapDefault [k].flatten, ['\n']]
+
+/-- the style `READ FUNCTION {f} {cite$ write$ newline$} ITERATE {f}`, parsed -/
+def rdEx : Bst.Command := ⟨s "READ", []⟩
+def postEx : Bst.Program :=
+  [⟨s "FUNCTION", [[.name (s "f")], [.name (s "cite$"), .name (s "write$"), .name (s "newline$")]]⟩,
+   ⟨s "ITERATE", [[.name (s "f")]]⟩]
+
+def ent (k t : String) : Str × Bib.Entry :=
+  (s k, { key := s k, type := s "misc", origType := s "misc", fields := [(s "title", s t)], persons := [] })
+/-- two readers' databases: the same two cited entries, in the other order after an uncited one -/
+def inp1 : Input := { bibTexts := [], citations := [s "a", s "b"], alt := some ([ent "a" "Z", ent "b" "Y"], []) }
+def inp2 : Input := { bibTexts := [], citations := [s "a", s "b"], alt := some ([ent "noise" "N", ent "b" "Y", ent "a" "Z"], []) }
+
+/-- the state in which `READ` runs -/
+def S0 : St := { vars := initVars, citations := [s "a", s "b"] }
+def db1 : BibData := convertDb (readParsed inp1 S0).db
+def db2 : BibData := convertDb (readParsed inp2 S0).db
+
+/-- an entry as plain lists (to compare entries by evaluation) -/
+structure EntV where
+  key : Str
+  type : Str
+  fd : List (Str × Str)
+  fk : List (Str × Str)
+  pd : List (Str × List Str)
+  pk : List (Str × Str)
+deriving DecidableEq
+
+def entView (e : Entry) : EntV :=
+  ⟨e.key, e.type, e.fields.dict, e.fields.keys, e.persons.dict, e.persons.keys⟩
+
+theorem entView_inj {a b : Option Entry} (h : a.map entView = b.map entView) : a = b := by
+  cases a with
+  | none => cases b with
+    | none => rfl
+    | some y => cases h
+  | some x => cases b with
+    | none => cases h
+    | some y =>
+      obtain ⟨k1, t1, ⟨fd1, fk1⟩, ⟨pd1, pk1⟩⟩ := x
+      obtain ⟨k2, t2, ⟨fd2, fk2⟩, ⟨pd2, pk2⟩⟩ := y
+      simp only [Option.map_some, Option.some.injEq, entView, EntV.mk.injEq] at h
+      obtain ⟨rfl, rfl, rfl, rfl, rfl, rfl⟩ := h
+      rfl
+end C06Ex
+open C06Ex
+
 /-! ### 1. entry-point equivalence and overrides -/
 
 /-- Driving the engine through an `.aux` file is the explicit call with what the `.aux` reader
@@ -34,20 +140,13 @@ theorem C06_aux_equiv (files : Files) (aux : Str) (fuel : Nat) (mc : Int) :
     simp only [makeBibliography, h, hs, hd, Option.getD_none]
     cases formatFromFiles files (data.map (· ++ ".bib".toList)) style st.citations mc none <;> rfl
 
-
-/-- the state `READ` leaves behind when a `bib_format` reader delivered `(es, pre)`: its entries
-go through `add_entry` (`addStep`: wanted-set filtering, first key wins) in the reader's order -/
-def readAlt (inp : Input) (s : St) (es : List (Str × Bib.Entry)) (pre : List Str) : St :=
-  let st0 : Bib.St :=
-    { rest := [], macros := CIDict.ofPairs s.macros,
-      db := { wanted := some (CISet.ofList s.citations), citations := CISet.ofList s.citations, preamble := pre },
-      roles := [] }
-  let st := es.foldl addStep st0
-  let db := convertDb st.db
-  let x := BibData.addExtraCitations db s.citations inp.minCrossrefs
-  let m := BibData.removeMissing db x.1
-  { s with db := some db, preamble := pre.flatten, citations := m.1,
-           reports := s.reports ++ st.errs.map Report.bib ++ x.2.map Report.data ++ m.2.map Report.data }
+theorem C06_aux_equiv_nonvacuous :
+    auxView (Aux.parse files.aux 3 (s "/D/doc.aux")) = some (some (s "/D/s"), some [s "/D/refs"], [s "a", s "b"]) ∧
+    bbl (makeBibliography files (s "/D/doc.aux") 3 none (s ".bib") 2 none) (·.1) = some (s "a\nb\n") ∧
+    bbl (formatFromFiles files [s "/D/refs.bib"] (s "/D/s") [s "a", s "b"] 2 none) id = some (s "a\nb\n") ∧
+    -- an unreadable `.aux` file is the error of the run
+    auxFatal (makeBibliography files (s "/D/nope.aux") 3 none (s ".bib") 2 none) = some (.cannotOpen (s "/D/nope.aux")) := by
+  decide +kernel
 
 /-- An explicitly requested style or database format overrides what the `.aux` file or the
 default says.
@@ -88,6 +187,206 @@ theorem C06_overrides (files : Files) (aux : Str) (fuel : Nat) (mc : Int) :
     rw [runCommand_read rfuel inp c s hc]
     simp only [readFinish, readParsed, ha, readAlt, readSt0, foldl_addStep_preamble]
 
+theorem C06_overrides_nonvacuous :
+    -- `\bibstyle{/D/s}` (citation order) overridden by the sorting style `/D/t`
+    bbl (makeBibliography files (s "/D/doc.aux") 3 (some (s "/D/t")) (s ".bib") 2 none) (·.1) = some (s "b\na\n") ∧
+    bbl (formatFromFiles files [s "/D/refs.bib"] (s "/D/t") [s "a", s "b"] 2 none) id = some (s "b\na\n") ∧
+    -- a `bib_format` reader: `/D/refs.yaml` is not among the texts, the reader's database is used
+    bbl (makeBibliography files (s "/D/doc.aux") 3 none (s ".yaml") 2 (some altDb)) (·.1) = some (s "a\nb\n") ∧
+    cannotOpen (makeBibliography files (s "/D/doc.aux") 3 none (s ".yaml") 2 none) = some (s "/D/refs.yaml") := by
+  decide +kernel
+
+/-! ### 2. frame: after `READ` the database matters only through the view of the cited keys
+
+`Agree K db₁ db₂` (`Lemmas/Engine.lean`): for every key of `K` both databases have an entry, of
+the same type, with the same value for every field name — own or inherited along the `crossref`
+chain (`bstFieldValue`, C14) — and the same `crossref` value (`bstCrossrefValue`).
+`Good K db₁ s`: `s` is a state of the run on `db₁` (`s.db = some db₁`) whose current entry (if
+any) and citations are keys of `K`.  `setDb db₂ s` is `s` with the database replaced by `db₂`.
+`SimR K db₁ db₂ r₁ r₂`: both results are the same error, or `r₁ = ok s₁`, `r₂ = ok (setDb db₂ s₁)`
+with `Good K db₁ s₁` — same stack, variables, entry variables, buffer, output lines, citations,
+current entry, preamble, reports and printed text; only the database differs. -/
+
+/-- THE frame theorem.  If two databases agree on the keys `K`, then from two states that differ
+in the database only, every piece of the interpreter — a popped value, a variable, a token, a
+function body, a `while$` loop, every built-in (for every amount of fuel), `ITERATE`/`REVERSE`
+over keys of `K`, every command except `READ`, every `READ`-free program — produces results that
+again differ in the database only (or the same error). -/
+theorem C06_frame (K : List Str) (db₁ db₂ : BibData) (hA : Agree K db₁ db₂) (fuel : Nat) :
+    (∀ v s, Good K db₁ s → SimR K db₁ db₂ (execVal fuel v s) (execVal fuel v (setDb db₂ s))) ∧
+    (∀ o s, Good K db₁ s → SimR K db₁ db₂ (execObj fuel o s) (execObj fuel o (setDb db₂ s))) ∧
+    (∀ t s, Good K db₁ s → SimR K db₁ db₂ (execTok fuel t s) (execTok fuel t (setDb db₂ s))) ∧
+    (∀ ts s, Good K db₁ s → SimR K db₁ db₂ (execBody fuel ts s) (execBody fuel ts (setDb db₂ s))) ∧
+    (∀ p f s, Good K db₁ s → SimR K db₁ db₂ (whileLoop fuel p f s) (whileLoop fuel p f (setDb db₂ s))) ∧
+    (∀ b s, Good K db₁ s → SimR K db₁ db₂ (runBuiltin fuel b s) (runBuiltin fuel b (setDb db₂ s))) ∧
+    (∀ f keys s, (∀ k ∈ keys, k ∈ K) → Good K db₁ s →
+        SimR K db₁ db₂ (iterate fuel f keys s) (iterate fuel f keys (setDb db₂ s))) ∧
+    (∀ (inp₁ inp₂ : Input) c s, upper c.name ≠ "READ".toList → Good K db₁ s →
+        SimR K db₁ db₂ (runCommand fuel inp₁ c s) (runCommand fuel inp₂ c (setDb db₂ s))) ∧
+    (∀ (inp₁ inp₂ : Input) prog s, (∀ c ∈ prog, upper c.name ≠ "READ".toList) → Good K db₁ s →
+        SimR K db₁ db₂ (runProgram fuel inp₁ prog s) (runProgram fuel inp₂ prog (setDb db₂ s))) := by
+  obtain ⟨h1, h2, h3, h4, h5, h6⟩ := frame_all hA fuel
+  exact ⟨h1, h2, h3, h4, h5, h6,
+    fun f keys s hk g => iterate_sim hA fuel f keys hk s g,
+    fun inp₁ inp₂ c s hc g => runCommand_sim hA fuel inp₁ inp₂ c hc s g,
+    fun inp₁ inp₂ prog s hp g => runProgram_sim hA fuel inp₁ inp₂ prog hp s g⟩
+
+/-- The view of a key is determined by its cross-reference closure (with C14): if the two
+databases have the same entries on a set `C` of keys that is closed under following `crossref`
+fields, they agree — in the sense the frame theorem needs — on every key of `C` that has an
+entry.  Entries outside `C` (uncited, unreferenced) and the order of the entries are irrelevant. -/
+theorem C06_frame_closure (C : Str → Prop) (db₁ db₂ : BibData) (K : List Str)
+    (hget : ∀ k, C k → db₁.entries.getItem k = db₂.entries.getItem k)
+    (hcl : ∀ k e x, C k → db₁.entries.getItem k = some e → e.fields.getItem xrefName = some x → C x)
+    (hK : ∀ k ∈ K, C k ∧ (db₁.entries.getItem k).isSome = true) :
+    Agree K db₁ db₂ :=
+  agree_of_closed ⟨hget, hcl⟩ K hK
+
+/-- the two example databases (they differ in the order of the entries) satisfy the hypotheses with
+`C` = the two cited keys in any letter case -/
+theorem C06_frame_closure_nonvacuous : Agree [s "a", s "b"] db1 db2 := by
+  refine C06_frame_closure (fun k => lower k = s "a" ∨ lower k = s "b") db1 db2 _ ?_ ?_ ?_
+  · intro k hk
+    rcases hk with hk | hk
+    · rw [getItem_lower_congr _ (show lower k = lower (s "a") from hk.trans (by decide)),
+        getItem_lower_congr db2.entries (show lower k = lower (s "a") from hk.trans (by decide))]
+      exact entView_inj (by decide +kernel)
+    · rw [getItem_lower_congr _ (show lower k = lower (s "b") from hk.trans (by decide)),
+        getItem_lower_congr db2.entries (show lower k = lower (s "b") from hk.trans (by decide))]
+      exact entView_inj (by decide +kernel)
+  · intro k e x hk he hx
+    exfalso
+    rcases hk with hk | hk
+    · rw [getItem_lower_congr _ (show lower k = lower (s "a") from hk.trans (by decide))] at he
+      have : (db1.entries.getItem (s "a")).bind (fun e => e.fields.getItem xrefName) = none := by decide +kernel
+      rw [he] at this
+      simp [hx] at this
+    · rw [getItem_lower_congr _ (show lower k = lower (s "b") from hk.trans (by decide))] at he
+      have : (db1.entries.getItem (s "b")).bind (fun e => e.fields.getItem xrefName) = none := by decide +kernel
+      rw [he] at this
+      simp [hx] at this
+  · decide +kernel
+
+theorem C06_frame_nonvacuous :
+    Agree [s "a", s "b"] db1 db2 ∧ CIDict.iter db1.entries ≠ CIDict.iter db2.entries ∧
+    Good [s "a", s "b"] db1 (readFinish inp1 S0 (readParsed inp1 S0)) :=
+  ⟨C06_frame_closure_nonvacuous, by decide +kernel, ⟨rfl, (fun k hk => nomatch hk), by decide +kernel⟩⟩
+
+/-- The `READ` hypothesis of `C06_frame_run`, reduced to the two readers' results.  With
+`P₁ P₂` the parser states after reading (`readParsed`: the `.bib` texts, or the entries of
+another reader) and `dbᵢ = convertDb Pᵢ.db`: if preamble and reader reports coincide, citation
+resolution (C05: `addExtraCitations`, `removeMissing`) gives the same keys and reports on both
+databases, and the databases agree on the resolved citations, then the two `READ` steps leave
+states that differ in the database only.  (That resolution coincides when the files differ in
+uncited, unreferenced entries or in order is C05's filtered-reading theorem with its ordering
+proviso; `C06_frame_uncited_alt` proves the insertion case for a reader's entry list.) -/
+theorem C06_frame_read (fuel : Nat) (inp₁ inp₂ : Input) (rd : Bst.Command) (s : St)
+    (hrd : upper rd.name = "READ".toList)
+    (hpre : (readParsed inp₂ s).db.preamble.flatten = (readParsed inp₁ s).db.preamble.flatten)
+    (herr : (readParsed inp₂ s).errs.map Report.bib = (readParsed inp₁ s).errs.map Report.bib)
+    (hx : (convertDb (readParsed inp₂ s).db).addExtraCitations s.citations inp₂.minCrossrefs =
+      (convertDb (readParsed inp₁ s).db).addExtraCitations s.citations inp₁.minCrossrefs)
+    (hm : (convertDb (readParsed inp₂ s).db).removeMissing
+        ((convertDb (readParsed inp₁ s).db).addExtraCitations s.citations inp₁.minCrossrefs).1 =
+      (convertDb (readParsed inp₁ s).db).removeMissing
+        ((convertDb (readParsed inp₁ s).db).addExtraCitations s.citations inp₁.minCrossrefs).1)
+    (hA : Agree ((convertDb (readParsed inp₁ s).db).removeMissing
+        ((convertDb (readParsed inp₁ s).db).addExtraCitations s.citations inp₁.minCrossrefs).1).1
+      (convertDb (readParsed inp₁ s).db) (convertDb (readParsed inp₂ s).db)) :
+    ∃ s₁ db₁ db₂, runCommand fuel inp₁ rd s = .ok s₁ ∧ s₁.db = some db₁ ∧
+      runCommand fuel inp₂ rd s = .ok (setDb db₂ s₁) ∧ Agree s₁.citations db₁ db₂ := by
+  refine ⟨readFinish inp₁ s (readParsed inp₁ s), convertDb (readParsed inp₁ s).db,
+    convertDb (readParsed inp₂ s).db, runCommand_read fuel inp₁ rd s hrd, rfl, ?_, hA⟩
+  rw [runCommand_read fuel inp₂ rd s hrd, readFinish_setDb inp₁ inp₂ s _ _ hpre herr hx hm]
+
+theorem C06_frame_read_nonvacuous :
+    (readParsed inp2 S0).db.preamble.flatten = (readParsed inp1 S0).db.preamble.flatten ∧
+    (readParsed inp1 S0).errs.isEmpty = true ∧ (readParsed inp2 S0).errs.isEmpty = true ∧
+    (convertDb (readParsed inp2 S0).db).addExtraCitations S0.citations inp2.minCrossrefs =
+      (convertDb (readParsed inp1 S0).db).addExtraCitations S0.citations inp1.minCrossrefs ∧
+    ((convertDb (readParsed inp1 S0).db).removeMissing
+      ((convertDb (readParsed inp1 S0).db).addExtraCitations S0.citations inp1.minCrossrefs).1).1 = [s "a", s "b"] := by
+  decide +kernel
+
+/-- Two whole runs of a style `pre; READ; post` (no other `READ`) on two inputs with the same
+citation list: if the two `READ` steps — whatever the `.bib` texts or reader databases are —
+leave states that differ in the database only (same resolved citations, preamble, reports) and
+the two databases agree on the resolved citations, then the runs are equal: same `.bbl` text,
+same reports, same printed output, or the same error. -/
+theorem C06_frame_run (fuel : Nat) (inp₁ inp₂ : Input) (pre post : Bst.Program) (rd : Bst.Command)
+    (hcit : inp₁.citations = inp₂.citations)
+    (hpre : ∀ c ∈ pre, upper c.name ≠ "READ".toList) (hrd : upper rd.name = "READ".toList)
+    (hpost : ∀ c ∈ post, upper c.name ≠ "READ".toList)
+    (hread : ∀ s, runProgram fuel inp₁ pre { vars := initVars, citations := inp₁.citations } = .ok s →
+      ∃ s₁ db₁ db₂, runCommand fuel inp₁ rd s = .ok s₁ ∧ s₁.db = some db₁ ∧
+        runCommand fuel inp₂ rd s = .ok (setDb db₂ s₁) ∧ Agree s₁.citations db₁ db₂) :
+    run fuel (pre ++ rd :: post) inp₁ = run fuel (pre ++ rd :: post) inp₂ := by
+  simp only [run, ← hcit, runProgram_append]
+  rw [← runProgram_inp fuel inp₁ inp₂ pre _ hpre]
+  have hk := runProgram_keep fuel inp₁ pre hpre { vars := initVars, citations := inp₁.citations } rfl
+  cases hp : runProgram fuel inp₁ pre { vars := initVars, citations := inp₁.citations } with
+  | error e => rfl
+  | ok s =>
+    rw [hp] at hk
+    obtain ⟨s₁, db₁, db₂, h1, hdb, h2, hA⟩ := hread s hp
+    simp only [runProgram, h1, h2]
+    have hcur : s₁.cur = none := by
+      rw [runCommand_read fuel inp₁ rd s hrd] at h1
+      injection h1 with h1
+      rw [← h1]
+      exact hk.1
+    have g : Good s₁.citations db₁ s₁ :=
+      ⟨hdb, fun k hk' => (by rw [hcur] at hk'; exact nomatch hk'), fun c hc => hc⟩
+    rcases (runProgram_sim hA fuel inp₁ inp₂ post hpost s₁ g).cases with ⟨e, h3, h4⟩ | ⟨s', h3, h4, -⟩ <;>
+      simp only [h3, h4]
+    rfl
+
+set_option maxRecDepth 10000 in
+theorem C06_frame_run_nonvacuous :
+    -- the hypotheses of `C06_frame_read` / `C06_frame_run` hold for the two readers …
+    (∃ s₁ d₁ d₂, runCommand 100 inp1 rdEx S0 = .ok s₁ ∧ s₁.db = some d₁ ∧
+      runCommand 100 inp2 rdEx S0 = .ok (setDb d₂ s₁) ∧ Agree s₁.citations d₁ d₂) ∧
+    -- … and the runs are equal
+    run 100 ([] ++ rdEx :: postEx) inp1 = run 100 ([] ++ rdEx :: postEx) inp2 ∧
+    (match run 100 ([] ++ rdEx :: postEx) inp1 with | .ok o => some o.bbl | .error _ => none) = some (s "a\nb\n") := by
+  have hres : ((convertDb (readParsed inp1 S0).db).removeMissing
+      ((convertDb (readParsed inp1 S0).db).addExtraCitations S0.citations inp1.minCrossrefs).1).1 = [s "a", s "b"] := by
+    decide +kernel
+  have hread : ∃ s₁ d₁ d₂, runCommand 100 inp1 rdEx S0 = .ok s₁ ∧ s₁.db = some d₁ ∧
+      runCommand 100 inp2 rdEx S0 = .ok (setDb d₂ s₁) ∧ Agree s₁.citations d₁ d₂ := by
+    refine C06_frame_read 100 inp1 inp2 rdEx S0 rfl (by decide +kernel) ?_ (by decide +kernel) (by decide +kernel) ?_
+    · have h1 : (readParsed inp1 S0).errs = [] := List.isEmpty_iff.1 (by decide +kernel)
+      have h2 : (readParsed inp2 S0).errs = [] := List.isEmpty_iff.1 (by decide +kernel)
+      rw [h1, h2]
+    · rw [hres]; exact C06_frame_closure_nonvacuous
+  refine ⟨hread, ?_, by decide +kernel⟩
+  refine C06_frame_run 100 inp1 inp2 [] postEx rdEx rfl (fun c hc => nomatch hc) rfl (by decide) ?_
+  intro s hs
+  cases hs
+  exact hread
+
+/-- Adding or removing an uncited, not-yet-referenced entry in the list a `bib_format` reader
+delivers changes nothing: if the key of the entry `ke` is, up to case, neither cited nor the
+`crossref` value of an entry standing before it (and no `*` is cited or referenced), then for a
+style `pre; READ; post` (no other `READ`) the whole run — `.bbl`, reports, printed output, or the
+error — is the same with and without it (`READ` leaves the very same state; the `.bib` texts
+play no role). -/
+theorem C06_frame_uncited_alt (fuel : Nat) (pre post : Bst.Program) (rd : Bst.Command)
+    (hpre : ∀ c ∈ pre, upper c.name ≠ "READ".toList) (hrd : upper rd.name = "READ".toList)
+    (hpost : ∀ c ∈ post, upper c.name ≠ "READ".toList)
+    (cits : List Str) (mc : Int) (ts ts' : List Str)
+    (epre epost : List (Str × Bib.Entry)) (ke : Str × Bib.Entry) (pream : List Str)
+    (hk : ∀ x ∈ cits ++ xrefsOf epre, Spec.keq ke.1 x = false ∧ Spec.keq ['*'] x = false) :
+    run fuel (pre ++ rd :: post)
+        { bibTexts := ts, citations := cits, minCrossrefs := mc, alt := some (epre ++ ke :: epost, pream) } =
+      run fuel (pre ++ rd :: post)
+        { bibTexts := ts', citations := cits, minCrossrefs := mc, alt := some (epre ++ epost, pream) } :=
+  run_uncited_alt fuel pre post rd hpre hrd hpost cits mc ts ts' epre epost ke pream hk
+
+theorem C06_frame_uncited_alt_nonvacuous :
+    ∀ x ∈ [s "a", s "b"] ++ xrefsOf [ent "b" "Y"],
+      Spec.keq (ent "noise" "N").1 x = false ∧ Spec.keq ['*'] x = false := by
+  decide +kernel
 
 /-! ### 3. one item per resolved citation, in citation / reverse / stable sort-key order -/
 
@@ -148,118 +447,27 @@ theorem C06_one_item_per_citation (fuel : Nat) (inp : Input) (f : VarObj) (Inv :
         obtain ⟨p1, p2, p3⟩ := sortByKey_spec l
         exact ⟨l, hl1, hl2, this, p1, p2, p3⟩
 
+/-- `f = {cite$ write$ newline$}` satisfies the hypotheses (for every state and key), and the three
+tiny styles give the keys in citation, reverse and sort-key order (`a` has title `Z`, `b` has `Y`). -/
+theorem C06_one_item_per_citation_nonvacuous :
+    (∀ st k st', InvEx st → execObj 10 fEx { st with cur := some k } = .ok st' →
+      InvEx st' ∧ st'.lines = st.lines ++ itemEx k) ∧
+    (∀ st cits, InvEx st → InvEx { st with citations := cits }) ∧
+    bbl (formatFromFiles files [s "/D/refs.bib"] (s "/D/s") [s "a", s "b"] 2 none) id = some (s "a\nb\n") ∧
+    bbl (formatFromFiles files [s "/D/refs.bib"] (s "/D/r") [s "a", s "b"] 2 none) id = some (s "b\na\n") ∧
+    bbl (formatFromFiles files [s "/D/refs.bib"] (s "/D/t") [s "a", s "b"] 2 none) id = some (s "b\na\n") ∧
+    sortByKey [(s "Z", s "a"), (s "Y", s "b"), (s "Z", s "c")] = [(s "Y", s "b"), (s "Z", s "a"), (s "Z", s "c")] := by
+  refine ⟨?_, fun st cits h => h, by decide +kernel, by decide +kernel, by decide +kernel, by decide +kernel⟩
+  intro st k st' h hrun
+  obtain ⟨h1, h2, h3, h4⟩ := h
+  simp only [fEx, execObj, execBody, execTok, runBuiltin, h1, h2, h3, h4, push, popStr, pop] at hrun
+  cases hrun
+  exact ⟨⟨h1, h2, h3, rfl⟩, by simp [itemEx]⟩
+
 /-- `strLt` (Python's `<` on `str`) is a strict total order: ties of the sort are equal keys. -/
 theorem C06_sort_order_total (a b c : Str) :
     strLt a a = false ∧ (strLt a b = true → strLt b c = true → strLt a c = true) ∧
     (strLt a b = false → strLt b a = false → a = b) :=
   ⟨strLt_irrefl a, strLt_trans, strLt_total⟩
-
-
-/-! ### 2. frame: after `READ` the database matters only through the view of the cited keys
-
-`Agree K db₁ db₂` (`Lemmas/Engine.lean`): for every key of `K` both databases have an entry, of
-the same type, with the same value for every field name — own or inherited along the `crossref`
-chain (`bstFieldValue`, C14) — and the same `crossref` value (`bstCrossrefValue`).
-`Good K db₁ s`: `s` is a state of the run on `db₁` (`s.db = some db₁`) whose current entry (if
-any) and citations are keys of `K`.  `setDb db₂ s` is `s` with the database replaced by `db₂`.
-`SimR K db₁ db₂ r₁ r₂`: both results are the same error, or `r₁ = ok s₁`, `r₂ = ok (setDb db₂ s₁)`
-with `Good K db₁ s₁` — same stack, variables, entry variables, buffer, output lines, citations,
-current entry, preamble, reports and printed text; only the database differs. -/
-
-/-- THE frame theorem.  If two databases agree on the keys `K`, then from two states that differ
-in the database only, every piece of the interpreter — a popped value, a variable, a token, a
-function body, a `while$` loop, every built-in (for every amount of fuel), `ITERATE`/`REVERSE`
-over keys of `K`, every command except `READ`, every `READ`-free program — produces results that
-again differ in the database only (or the same error). -/
-theorem C06_frame (K : List Str) (db₁ db₂ : BibData) (hA : Agree K db₁ db₂) (fuel : Nat) :
-    (∀ v s, Good K db₁ s → SimR K db₁ db₂ (execVal fuel v s) (execVal fuel v (setDb db₂ s))) ∧
-    (∀ o s, Good K db₁ s → SimR K db₁ db₂ (execObj fuel o s) (execObj fuel o (setDb db₂ s))) ∧
-    (∀ t s, Good K db₁ s → SimR K db₁ db₂ (execTok fuel t s) (execTok fuel t (setDb db₂ s))) ∧
-    (∀ ts s, Good K db₁ s → SimR K db₁ db₂ (execBody fuel ts s) (execBody fuel ts (setDb db₂ s))) ∧
-    (∀ p f s, Good K db₁ s → SimR K db₁ db₂ (whileLoop fuel p f s) (whileLoop fuel p f (setDb db₂ s))) ∧
-    (∀ b s, Good K db₁ s → SimR K db₁ db₂ (runBuiltin fuel b s) (runBuiltin fuel b (setDb db₂ s))) ∧
-    (∀ f keys s, (∀ k ∈ keys, k ∈ K) → Good K db₁ s →
-        SimR K db₁ db₂ (iterate fuel f keys s) (iterate fuel f keys (setDb db₂ s))) ∧
-    (∀ (inp₁ inp₂ : Input) c s, upper c.name ≠ "READ".toList → Good K db₁ s →
-        SimR K db₁ db₂ (runCommand fuel inp₁ c s) (runCommand fuel inp₂ c (setDb db₂ s))) ∧
-    (∀ (inp₁ inp₂ : Input) prog s, (∀ c ∈ prog, upper c.name ≠ "READ".toList) → Good K db₁ s →
-        SimR K db₁ db₂ (runProgram fuel inp₁ prog s) (runProgram fuel inp₂ prog (setDb db₂ s))) := by
-  obtain ⟨h1, h2, h3, h4, h5, h6⟩ := frame_all hA fuel
-  exact ⟨h1, h2, h3, h4, h5, h6,
-    fun f keys s hk g => iterate_sim hA fuel f keys hk s g,
-    fun inp₁ inp₂ c s hc g => runCommand_sim hA fuel inp₁ inp₂ c hc s g,
-    fun inp₁ inp₂ prog s hp g => runProgram_sim hA fuel inp₁ inp₂ prog hp s g⟩
-
-/-- Two whole runs of a style `pre; READ; post` (no other `READ`) on two inputs with the same
-citation list: if the two `READ` steps — whatever the `.bib` texts or reader databases are —
-leave states that differ in the database only (same resolved citations, preamble, reports) and
-the two databases agree on the resolved citations, then the runs are equal: same `.bbl` text,
-same reports, same printed output, or the same error. -/
-theorem C06_frame_run (fuel : Nat) (inp₁ inp₂ : Input) (pre post : Bst.Program) (rd : Bst.Command)
-    (hcit : inp₁.citations = inp₂.citations)
-    (hpre : ∀ c ∈ pre, upper c.name ≠ "READ".toList) (hrd : upper rd.name = "READ".toList)
-    (hpost : ∀ c ∈ post, upper c.name ≠ "READ".toList)
-    (hread : ∀ s, runProgram fuel inp₁ pre { vars := initVars, citations := inp₁.citations } = .ok s →
-      ∃ s₁ db₁ db₂, runCommand fuel inp₁ rd s = .ok s₁ ∧ s₁.db = some db₁ ∧
-        runCommand fuel inp₂ rd s = .ok (setDb db₂ s₁) ∧ Agree s₁.citations db₁ db₂) :
-    run fuel (pre ++ rd :: post) inp₁ = run fuel (pre ++ rd :: post) inp₂ := by
-  simp only [run, ← hcit, runProgram_append]
-  rw [← runProgram_inp fuel inp₁ inp₂ pre _ hpre]
-  have hk := runProgram_keep fuel inp₁ pre hpre { vars := initVars, citations := inp₁.citations } rfl
-  cases hp : runProgram fuel inp₁ pre { vars := initVars, citations := inp₁.citations } with
-  | error e => rfl
-  | ok s =>
-    rw [hp] at hk
-    obtain ⟨s₁, db₁, db₂, h1, hdb, h2, hA⟩ := hread s hp
-    simp only [runProgram, h1, h2]
-    have hcur : s₁.cur = none := by
-      rw [runCommand_read fuel inp₁ rd s hrd] at h1
-      injection h1 with h1
-      rw [← h1]
-      exact hk.1
-    have g : Good s₁.citations db₁ s₁ :=
-      ⟨hdb, fun k hk' => (by rw [hcur] at hk'; exact nomatch hk'), fun c hc => hc⟩
-    rcases (runProgram_sim hA fuel inp₁ inp₂ post hpost s₁ g).cases with ⟨e, h3, h4⟩ | ⟨s', h3, h4, -⟩ <;>
-      simp only [h3, h4]
-    rfl
-
-
-/-- The view of a key is determined by its cross-reference closure (with C14): if the two
-databases have the same entries on a set `C` of keys that is closed under following `crossref`
-fields, they agree — in the sense the frame theorem needs — on every key of `C` that has an
-entry.  Entries outside `C` (uncited, unreferenced) and the order of the entries are irrelevant. -/
-theorem C06_frame_closure (C : Str → Prop) (db₁ db₂ : BibData) (K : List Str)
-    (hget : ∀ k, C k → db₁.entries.getItem k = db₂.entries.getItem k)
-    (hcl : ∀ k e x, C k → db₁.entries.getItem k = some e → e.fields.getItem xrefName = some x → C x)
-    (hK : ∀ k ∈ K, C k ∧ (db₁.entries.getItem k).isSome = true) :
-    Agree K db₁ db₂ :=
-  agree_of_closed ⟨hget, hcl⟩ K hK
-
-/-- The `READ` hypothesis of `C06_frame_run`, reduced to the two readers' results.  With
-`P₁ P₂` the parser states after reading (`readParsed`: the `.bib` texts, or the entries of
-another reader) and `dbᵢ = convertDb Pᵢ.db`: if preamble and reader reports coincide, citation
-resolution (C05: `addExtraCitations`, `removeMissing`) gives the same keys and reports on both
-databases, and the databases agree on the resolved citations, then the two `READ` steps leave
-states that differ in the database only.  (That resolution coincides when the files differ in
-uncited, unreferenced entries or in order is C05's filtered-reading theorem with its ordering
-proviso; `C06_frame_uncited_alt` proves the insertion case for a reader's entry list.) -/
-theorem C06_frame_read (fuel : Nat) (inp₁ inp₂ : Input) (rd : Bst.Command) (s : St)
-    (hrd : upper rd.name = "READ".toList)
-    (hpre : (readParsed inp₂ s).db.preamble.flatten = (readParsed inp₁ s).db.preamble.flatten)
-    (herr : (readParsed inp₂ s).errs.map Report.bib = (readParsed inp₁ s).errs.map Report.bib)
-    (hx : (convertDb (readParsed inp₂ s).db).addExtraCitations s.citations inp₂.minCrossrefs =
-      (convertDb (readParsed inp₁ s).db).addExtraCitations s.citations inp₁.minCrossrefs)
-    (hm : (convertDb (readParsed inp₂ s).db).removeMissing
-        ((convertDb (readParsed inp₁ s).db).addExtraCitations s.citations inp₁.minCrossrefs).1 =
-      (convertDb (readParsed inp₁ s).db).removeMissing
-        ((convertDb (readParsed inp₁ s).db).addExtraCitations s.citations inp₁.minCrossrefs).1)
-    (hA : Agree ((convertDb (readParsed inp₁ s).db).removeMissing
-        ((convertDb (readParsed inp₁ s).db).addExtraCitations s.citations inp₁.minCrossrefs).1).1
-      (convertDb (readParsed inp₁ s).db) (convertDb (readParsed inp₂ s).db)) :
-    ∃ s₁ db₁ db₂, runCommand fuel inp₁ rd s = .ok s₁ ∧ s₁.db = some db₁ ∧
-      runCommand fuel inp₂ rd s = .ok (setDb db₂ s₁) ∧ Agree s₁.citations db₁ db₂ := by
-  refine ⟨readFinish inp₁ s (readParsed inp₁ s), convertDb (readParsed inp₁ s).db,
-    convertDb (readParsed inp₂ s).db, runCommand_read fuel inp₁ rd s hrd, rfl, ?_, hA⟩
-  rw [runCommand_read fuel inp₂ rd s hrd, readFinish_setDb inp₁ inp₂ s _ _ hpre herr hx hm]
 
 end Pybtex.Props
